@@ -974,7 +974,18 @@ where
   fn poll(mut self: Pin<&mut Self>, cx: &mut Context<'_>) -> Poll<Self::Output> {
     match self.writer_command.take() {
       Some(wc) => {
-        match self.writer.cc_upload.try_send(wc) {
+        // If the queue is full, store our waker and then try once more: The Writer
+        // may have made room in the queue after our first attempt, but before
+        // our waker was in place. In that case it has woken nobody, and
+        // nobody would wake us later.
+        let send_result = match self.writer.cc_upload.try_send(wc) {
+          Err(TrySendError::Full(wc)) => {
+            *self.writer.cc_upload_waker.lock().unwrap() = Some(cx.waker().clone());
+            self.writer.cc_upload.try_send(wc)
+          }
+          other => other,
+        };
+        match send_result {
           Ok(()) => {
             self.writer.refresh_manual_liveliness();
             Poll::Ready(Ok(SampleIdentity {
@@ -983,7 +994,6 @@ where
             }))
           }
           Err(TrySendError::Full(wc)) => {
-            *self.writer.cc_upload_waker.lock().unwrap() = Some(cx.waker().clone());
             if Instant::now() < self.timeout_instant {
               // Put our command back
               self.writer_command = Some(wc);
